@@ -93,7 +93,7 @@ CLAIMED = {
          "DESIGN.md §4 (C16)"),
  "C10": ("Partial (order-independence of the emitters): every range over a Go map in the executed code picks an arbitrary permutation "
          "(engine-level nondeterminism); map expressions, binding maps, argument maps, metadata listings and job-script environment blocks with "
-         "2-3 distinct symbolic keys are emitted twice and the solver shows the two outputs are byte-identical on every pair of orders.",
+         "2-3 distinct symbolic keys are emitted twice and the solver shows the two outputs are byte-identical on every pair of orders. Ten repository test programs are compiled, formatted and resolved under two fixed engine map orders and Go's random order (native replay) with equal results.",
          "Trusted: go/ssa, symgo (map-order model), z3. Static fork-id enumeration over a map source (MakeForkIds) is sorted under every iteration order. Outside: whole-pipeline Format/MakeCallGraph identity, error-message order, "
          "cross-process repetition.",
          "DESIGN.md §4 (C10)"),
